@@ -44,9 +44,12 @@ def gen_sequence(rng: random.Random, tier):
     ids = rng.sample(range(1, 100), nc)
     steps, live, nlab = [], [], nc
     opts = {}
+    shared = rng.random() < 0.35   # several live connections of one allow-multiple module id
     for i, L in enumerate(labels):
         o = {"mod_id": rng.choice([ids[i], ids[i], 0]), "logger": int(rng.random() < 0.2),
              "v2": rng.random() < 0.75, "name": rng.choice(["", f"n{L}"])}
+        if shared and i < 3 and (i < 2 or rng.random() < 0.5):
+            o.update(mod_id=ids[0], v2=True, allow_multiple=1, name=rng.choice(["", "multi"]))
         opts[L] = o
         steps += [["open", L], ["hello", L, o]]
         live.append(L)
